@@ -31,6 +31,30 @@ typedef gf27500 gft;
 #endif
 #endif
 
+
+#ifndef VERIF_BW
+/* the fiat-crypto functions behind fp_add/sub/mul/sqr/tomont/frommont (non-static, no header) */
+#if VERIF_LVL == 1
+#define FI(x) fiat_p5248_##x
+#elif VERIF_LVL == 3
+#define FI(x) fiat_p65376_##x
+#else
+#define FI(x) fiat_p27500_##x
+#endif
+extern void FI(mul)(uint64_t *, const uint64_t *, const uint64_t *);
+extern void FI(square)(uint64_t *, const uint64_t *);
+extern void FI(add)(uint64_t *, const uint64_t *, const uint64_t *);
+extern void FI(sub)(uint64_t *, const uint64_t *, const uint64_t *);
+extern void FI(opp)(uint64_t *, const uint64_t *);
+extern void FI(from_montgomery)(uint64_t *, const uint64_t *);
+extern void FI(to_montgomery)(uint64_t *, const uint64_t *);
+extern void FI(nonzero)(uint64_t *, const uint64_t *);
+extern void FI(selectznz)(uint64_t *, unsigned char, const uint64_t *, const uint64_t *);
+extern void FI(to_bytes)(uint8_t *, const uint64_t *);
+extern void FI(from_bytes)(uint64_t *, const uint8_t *);
+extern void FI(set_one)(uint64_t *);
+#endif
+
 static int hexval(int c)
 {
     if (c >= '0' && c <= '9') return c - '0';
@@ -302,6 +326,49 @@ int main(void)
             fp2_pow_vartime(po, &x, e, (int)u);
             printf("R "); put_fp2(po); printf("\n");
         }
+#ifndef VERIF_BW
+        /* ---- ref back-end only: the fiat-crypto functions themselves */
+        else if (OP("fiat_mul") || OP("fiat_add") || OP("fiat_sub")) {
+            NEED(2);
+            if (get_fp(arg[0], &a) || get_fp(arg[1], &b)) goto bad;
+            fp_t *pa = &a, *pb = &b, *po = &d;
+            if (al == 1) po = &a; else if (al == 2) po = &b; else if (al == 3) pb = &a;
+            else if (al == 4) { pb = &a; po = &a; }
+            if (OP("fiat_mul")) FI(mul)(*po, *pa, *pb); else if (OP("fiat_add")) FI(add)(*po, *pa, *pb); else FI(sub)(*po, *pa, *pb);
+            printf("R "); put_fp(po); printf("\n");
+        } else if (OP("fiat_square") || OP("fiat_opp") || OP("fiat_to_montgomery") || OP("fiat_from_montgomery")) {
+            NEED(1);
+            if (get_fp(arg[0], &a)) goto bad;
+            fp_t *po = al == 1 ? &a : &d;
+            if (OP("fiat_square")) FI(square)(*po, a); else if (OP("fiat_opp")) FI(opp)(*po, a);
+            else if (OP("fiat_to_montgomery")) FI(to_montgomery)(*po, a); else FI(from_montgomery)(*po, a);
+            printf("R "); put_fp(po); printf("\n");
+        } else if (OP("fiat_set_one")) {
+            NEED(0); FI(set_one)(d); printf("R "); put_fp(&d); printf("\n");
+        } else if (OP("fiat_nonzero")) {
+            NEED(1);
+            if (get_fp(arg[0], &a)) goto bad;
+            FI(nonzero)(&u, a);
+            printf("R %llx\n", (unsigned long long)u);
+        } else if (OP("fiat_selectznz")) {
+            NEED(3);
+            if (get_u64(arg[0], &u) || get_fp(arg[1], &a) || get_fp(arg[2], &b)) goto bad;
+            FI(selectznz)(d, (unsigned char)u, a, b);
+            printf("R "); put_fp(&d); printf("\n");
+        } else if (OP("fiat_to_bytes")) {
+            NEED(1);
+            if (get_fp(arg[0], &a)) goto bad;
+            uint8_t buf[8 * NW];
+            FI(to_bytes)(buf, a);
+            printf("R "); print_bytes_le(buf, 8 * NW); printf("\n");
+        } else if (OP("fiat_from_bytes")) {
+            NEED(1);
+            uint8_t buf[8 * NW];
+            if (parse_bytes(arg[0], buf, sizeof buf)) goto bad;
+            FI(from_bytes)(d, buf);
+            printf("R "); put_fp(&d); printf("\n");
+        }
+#endif
 #ifdef VERIF_BW
         /* ---- x86 back-end only: the gf* API below the fp_* macro layer */
         else if (OP("gf_mul_small")) {
